@@ -94,6 +94,8 @@ def rule_U7(chk, fn, g, shift_renames, dump_renames, dump_local, name_helpers=No
             return target_index(str_inits[e["id"]])
         if e.get("k") == "Ref" and e.get("id") == dump_local["id"]:
             return "dump"
+        if dump_local.get("member") and C.member_name(e) == dump_local["n"]:
+            return "dump"
         return None
 
     def cev(e, st):
@@ -215,4 +217,61 @@ def rule_U7(chk, fn, g, shift_renames, dump_renames, dump_local, name_helpers=No
                     "restart.%d.back %s - a slot that holds a previous dump that must be kept: one backup fewer than configured "
                     "survives" % ((witness or (0, 0, 0, 0))[0], (witness or (0, 0, 0, 0))[1] + 1, (witness or (0, 0, 0, 0))[2],
                                   (witness or (0, 0, 0, 0))[3], stage), function=fn["qname"], construct="deletion of a kept backup")
+    return n
+
+
+def rule_U8(chk, u, rotation_fn, cls="RestartManager"):
+    """Outside the rotation nothing deletes a dump or a backup: for every file-destroying call in the other methods of the
+    manager the name is resolved - through locals and through members initialised in the constructors - to the string
+    literals it is built from; a name built from "restart." / ".dump" / ".back" is one of the dump files."""
+    methods = [m for m in u.methods_of(cls) if m.get("body") is not None]
+    member_inits = {}
+    for m in methods:
+        if m.get("ctor"):
+            for ini in m.get("inits") or []:
+                if ini.get("member") and ini.get("x") is not None:
+                    member_inits.setdefault(ini["member"], []).append(ini["x"])
+            for s_ in C.walk_stmt(m["body"]):
+                if s_.get("k") == "Bin" and s_.get("op") == "=" and C.member_name(s_["a"]):
+                    member_inits.setdefault(C.member_name(s_["a"]), []).append(s_["b"])
+    n = 0
+    for m in methods:
+        if m is rotation_fn or m["full"] == rotation_fn["full"] or m.get("ctor"):
+            continue
+        decls = {}
+        for s_ in C.walk_stmt(m["body"]):
+            if s_.get("k") == "Decl":
+                for d in s_["d"]:
+                    decls[d["id"]] = d
+
+        def literals(e, depth=0):
+            out = set()
+            if e is None or depth > 6:
+                return out
+            for x in C.walk(e):
+                if x.get("k") == "Str":
+                    out.add(x.get("v") or "")
+                elif x.get("k") == "Ref" and x.get("id") in decls and decls[x["id"]].get("init") is not None:
+                    out |= literals(decls[x["id"]]["init"], depth + 1)
+                elif C.member_name(x) in member_inits:
+                    for ie in member_inits[C.member_name(x)]:
+                        out |= literals(ie, depth + 1)
+            return out
+        seen_calls = []
+        for x in C.walk_stmt(m["body"]):
+            if _is_destroyer(x) and not any(x is y for y in seen_calls):
+                seen_calls.append(x)
+                lits = literals(x["a"][0])
+                n += 1
+                if not lits:
+                    raise AnalysisBroken("U8: the file deleted by %s in %s cannot be named" % (C.pretty(x)[:50], m["full"]))
+                hit = sorted(t for t in lits if "restart." in t or t.endswith(".dump") or t.endswith(".back"))
+                chk.require(not hit, "U8", "%s: `%s` does not delete a restart dump" % (m["name"], C.pretty(x)[:50]), where(x, m),
+                            "the deleted name is built from %s: the newest complete dump (or a backup) is removed outside the "
+                            "rotation, the next dump finds nothing to move to backup 0 and aborts, and until it is written no "
+                            "complete dump of the last state is on disk" % hit, function=m["full"],
+                            construct="deletion outside the rotation")
+    if n == 0:
+        chk.ok("U8", "no other method of %s deletes a file" % cls, where(rotation_fn))
+        n = 1
     return n
